@@ -539,8 +539,74 @@ func c04AckVsSweep(c *fw.Ctx, part int) {
 	}
 }
 
+// c04FreshSecond: eight goroutines register the first entries of one not yet used second at the same
+// moment; all are acknowledged; the same keys are registered again with a deadline ten seconds later.
+// A sweep three seconds after the first deadlines must expire nothing (the acknowledged registrations'
+// timers are gone), a sweep after the new deadlines must expire every new registration once.
+func c04FreshSecond(c *fw.Ctx, part int) {
+	rounds := c.Pick(500, 5000)
+	early, lost := 0, 0
+	var witness string
+	for r := 0; r < rounds; r++ {
+		q := ack.NewQueue()
+		const g = 8
+		d := c04T0.Add(time.Duration(5+r%7) * time.Second)
+		var ready, phase int32
+		var wg sync.WaitGroup
+		for i := 0; i < g; i++ {
+			wg.Add(1)
+			go func(i int) {
+				defer wg.Done()
+				atomic.AddInt32(&ready, 1)
+				for atomic.LoadInt32(&ready) < g { // spinning barrier: all start together
+				}
+				q.Insert(fmt.Sprintf("s%d", i), &packet.Publish{Header: &packet.Header{Qos: 1}, MessageId: 1}, d.Add(time.Duration(i)*time.Millisecond), func(bool, packet.Packet, packet.Packet) {})
+			}(i)
+		}
+		wg.Wait()
+		for i := 0; i < g; i++ {
+			q.Ack(fmt.Sprintf("s%d", i), &packet.PubAck{Header: &packet.Header{}, MessageId: 1})
+		}
+		fired := make([]int32, g)
+		firedEarly := make([]int32, g)
+		for i := 0; i < g; i++ {
+			i := i
+			q.Insert(fmt.Sprintf("s%d", i), &packet.Publish{Header: &packet.Header{Qos: 1}, MessageId: 1}, d.Add(10*time.Second), func(expired bool, _, _ packet.Packet) {
+				atomic.AddInt32(&fired[i], 1)
+				if atomic.LoadInt32(&phase) == 0 {
+					atomic.AddInt32(&firedEarly[i], 1)
+				}
+			})
+		}
+		q.Expire(d.Add(3 * time.Second))
+		atomic.StoreInt32(&phase, 1)
+		q.Expire(d.Add(20 * time.Second))
+		q.Expire(d.Add(40 * time.Second))
+		for i := 0; i < g; i++ {
+			if firedEarly[i] > 0 {
+				early++
+				if witness == "" {
+					witness = fmt.Sprintf("round %d: (s%d,1) was registered in a fresh second together with 7 others, acknowledged, registered again with a deadline 10 s later - and expired at a sweep 7 s before that deadline", r, i)
+				}
+			} else if fired[i] != 1 {
+				lost++
+				if witness == "" {
+					witness = fmt.Sprintf("round %d: the second registration of (s%d,1) ended with %d outcomes", r, i, fired[i])
+				}
+			}
+		}
+	}
+	c.Observe("fresh_second_rounds", rounds)
+	c.Case(fmt.Sprintf("fresh-second|%d", part), true)
+	if early > 0 {
+		c.Violation("queue-concurrent:expired-early", fmt.Sprintf("concurrent first registrations of one second: %d later registrations expired before their deadline in %d rounds; e.g. %s", early, rounds, witness), map[string]interface{}{"early": early, "rounds": rounds, "example": witness})
+	} else if lost > 0 {
+		c.Violation("queue-concurrent:outcome-count", fmt.Sprintf("concurrent first registrations of one second: %d registrations without exactly one outcome in %d rounds; e.g. %s", lost, rounds, witness), map[string]interface{}{"bad": lost, "rounds": rounds, "example": witness})
+	}
+}
+
 func runC04(c *fw.Ctx) {
-	c.Rule = "(i) seeded sequential histories of 5-40 register/acknowledge/sweep operations on the real ack.Queue over 2-3 sessions x identifiers 1-4, deadlines and sweep times drawn from a small set of offsets so that equal, same-second (x.499/x.500/x.501), past and future deadlines collide; some registrations re-register themselves from their expiry callback as the writer does; oracle = map (session,id) -> {expected type, deadline} with a +-1 s band for 'honoured to the second', and exactly-one-outcome after final far-future sweeps. (ii) the expiration.List interface alone, both implementations (hook H4), against a multiset model. (iii) register/acknowledge from 8-16 goroutines on shared keys while a sweeper runs, and acknowledgements from six goroutines racing the sweep of the very second their deadlines fall into; outcome counting only. distinct = operation sequence; non-trivial = history contains >=2 registrations whose deadlines fall in the same second, or a wrong-type/unknown acknowledgement, or a duplicate registration"
+	c.Rule = "(i) seeded sequential histories of 5-40 register/acknowledge/sweep operations on the real ack.Queue over 2-3 sessions x identifiers 1-4, deadlines and sweep times drawn from a small set of offsets so that equal, same-second (x.499/x.500/x.501), past and future deadlines collide; some registrations re-register themselves from their expiry callback as the writer does; oracle = map (session,id) -> {expected type, deadline} with a +-1 s band for 'honoured to the second', and exactly-one-outcome after final far-future sweeps. (ii) the expiration.List interface alone, both implementations (hook H4), against a multiset model. (iii) register/acknowledge from 8-16 goroutines on shared keys while a sweeper runs, and acknowledgements from six goroutines racing the sweep of the very second their deadlines fall into; outcome counting only. (iv) eight goroutines open one fresh second together, everything is acknowledged and registered again with a later deadline: nothing may expire before it. distinct = operation sequence; non-trivial = history contains >=2 registrations whose deadlines fall in the same second, or a wrong-type/unknown acknowledgement, or a duplicate registration"
 	c.Assume("'honoured to the second': an entry must expire at a sweep >= deadline+1 s, must not at a sweep <= deadline-1 s; inside the band either outcome is accepted and the model follows the implementation")
 	c.Assume("identifier 0 is not used (rejected by design)")
 	workers := runtime.NumCPU()
@@ -609,6 +675,7 @@ func runC04(c *fw.Ctx) {
 		go func(p int) { defer wg2.Done(); c04AckVsSweep(c, p) }(p)
 	}
 	wg2.Wait()
+	c04FreshSecond(c, 0) // alone: its spinning barrier wants the cores
 }
 
 func c04NonTrivial(ops []c04Op) bool {
